@@ -31,12 +31,28 @@ def obs_code(nodec: bool, below: bool = False, rej: bool = False) -> int:
     return (1 if nodec else 0) + (2 if below else 0) + (4 if rej else 0)
 
 
+class NonFinite(Exception):
+    """the real code produced a non-finite / non-integer counter or a non-boolean flag for a valid input: a failing
+    input of the property (reported with the case), never a crash of the harness"""
+
+
 def ctl_code(ctl) -> int:
-    """state code of a real controller (scheduler or stepper)"""
+    """state code of a real controller (scheduler or stepper); counters are tested for being finite integers BEFORE
+    they are encoded / sent to the Lean driver"""
     c = ctl.continual()
-    if not isinstance(c, bool):
-        c = bool(c)
-    return st_code(ctl.steps, ctl.patience_count, c)
+    vals = {"steps": ctl.steps, "patience_count": ctl.patience_count}
+    for k, v in vals.items():
+        if torch.is_tensor(v):
+            v = v.item() if v.numel() == 1 else float("nan")
+        if isinstance(v, bool) or not isinstance(v, (int, float)) or v != v or v in (float("inf"), float("-inf")) or v != int(v) \
+                or v < 0:
+            raise NonFinite(f"non-finite result: controller.{k} = {vals[k]!r} (a non-negative integer is documented)")
+        vals[k] = int(v)
+    if torch.is_tensor(c):
+        c = bool(c) if c.numel() == 1 else None
+    if c is None or not isinstance(c, (bool, int)):
+        raise NonFinite(f"non-finite result: continual() returned {c!r}")
+    return st_code(vals["steps"], vals["patience_count"], bool(c))
 
 
 # ----------------------------------------------------------------------------- the property's own statement
@@ -120,6 +136,27 @@ def abs_nodec(last: float, loss: float, d: float, dtype: str):
     if diff != Fraction(d) and abs(diff - Fraction(d)) <= 32 * Fraction(EPSF[dtype]) * max(abs(Fraction(last)), abs(Fraction(loss)), abs(Fraction(d))):
         fl = not ex
     return ex, fl
+
+
+def finite_all(vals) -> bool:
+    return all(isinstance(v, (int, float)) and math.isfinite(v) for v in vals)
+
+
+def rtb_obs_ieee(last, loss, d, tol, dtype):
+    """(nodec, below) with numpy's IEEE arithmetic — used when a loss is NaN / inf (what the comparisons of the code are
+    specified to give there: every comparison with NaN is false); finite inputs go through `rtb_obs_exact`"""
+    t = NP[dtype]
+    with np.errstate(all="ignore"):
+        x = np.array(loss, dtype=t)
+        l = np.array(np.inf if last is None else last, dtype=t)
+        return bool(np.all((l - x) / x < t(d))), bool(np.all(x < t(tol))), False
+
+
+def abs_nodec_ieee(last, loss, d, dtype):
+    t = NP[dtype]
+    with np.errstate(all="ignore"):
+        r = bool(t(last) - t(loss) < t(d))
+    return r, r
 
 
 def rtb_obs_exact(last, loss, d, tol, dtype):
